@@ -719,6 +719,7 @@ func (in *Interp) eval(fr *frame, sc *scope, e *N) Value {
 			// async rendering: await df(v)
 			return in.await(fr, in.df(v))
 		}
+		fr.gen.at = e
 		return in.genYield(fr, in.iterResult(v, false))
 	case YStar:
 		if fr.gen == nil {
@@ -728,7 +729,9 @@ func (in *Interp) eval(fr *frame, sc *scope, e *N) Value {
 			}
 			return in.await(fr, in.eval(fr, sc, e.X[0]))
 		}
-		return in.yieldStar(fr, in.eval(fr, sc, e.X[0]))
+		it := in.eval(fr, sc, e.X[0])
+		fr.gen.at = e
+		return in.yieldStar(fr, it)
 	case Await:
 		return in.await(fr, in.eval(fr, sc, e.X[0]))
 	case Bin:
